@@ -763,11 +763,12 @@ theorem fnorm_copies {lc rc : List Node} (hl : IsCopy lc) (hr : IsCopy rc) : fno
 
 /-- **`Slice(before ++ after, oS, oE).insert_at(|before| - oS, gap)`**: the gap's content goes between the two nests -/
 theorem insertAt_lift (S : Schema) {lc rc : List Node} (mid : List Node) (a b : Nat) (hl : IsCopy lc)
-    (hr : IsCopy rc) (ha : a ≤ fsize lc) :
+    (hr : IsCopy rc) (ha : a ≤ fsize lc) (hb : b ≤ fsize rc) :
     Slice.insertAt S ⟨fappend lc rc, a, b⟩ (fsize lc - a) mid = .ok (some ⟨lc ++ mid ++ rc, a, b⟩) := by
   obtain ⟨e1, e2⟩ := fappend_copies mid hl hr
   have hn := fnorm_copies hl hr
-  unfold Slice.insertAt
+  rw [insertAt_of_le (by simp only [Slice.size, e1, fsize_append]; omega)]
+  unfold Slice.insertAtIn
   simp only [e1, show fsize lc - a + a = fsize lc by omega]
   have := insertInto_skip S mid none (lc ++ rc) (fsize lc) lc rc 0 a b
     (fnormKids_of_fnorm (fnorm_append_left hn))
@@ -878,17 +879,18 @@ theorem RInv.side {S : Schema} {doc : Node} {t : RPos} {ge depth target : Nat} {
     (hst : t.start (target + 1) = t.start target + fsize preT + 1)
     (hwhole : fsize ((t.node target).kids.take (t.indexAfter target)) = fsize preT + (2 + fsize kN)) :
     ∃ tN, RightSide S tyN aN mN kN tN frag opened acc.toList ∧
-      ge + moved = t.start target + (fsize preT + tN) ∧ IsCopy frag := by
+      ge + moved = t.start target + (fsize preT + tN) ∧ IsCopy frag ∧ opened ≤ fsize frag := by
   obtain ⟨_, h3⟩ := h
   simp only [Nat.add_zero] at h3
   rcases h3 with ⟨_, rfl, rfl, rfl, hb⟩ | ⟨_, _, ty, a, m, kids, W, XR, e1, rfl, rfl, rfl, hst', hcut⟩
-  · exact ⟨2 + fsize kN, .whole, by rw [hb, hwhole], .inl rfl⟩
+  · exact ⟨2 + fsize kN, .whole, by rw [hb, hwhole], .inl rfl, by simp⟩
   · rw [eN] at e1
     simp only [Node.elem.injEq] at e1
     obtain ⟨rfl, rfl, rfl, rfl⟩ := e1
     have hc := hcut hok
     obtain ⟨_, _, hW, _, hnW⟩ := hc.depth
-    exact ⟨1 + (ge + moved - t.start (target + 1)), .cut hc, by omega, .inr ⟨_, _, _, _, rfl, hnW⟩⟩
+    exact ⟨1 + (ge + moved - t.start (target + 1)), .cut hc, by omega, .inr ⟨_, _, _, _, rfl, hnW⟩,
+      by simp; omega⟩
 
 /-! ### an approved lift applies -/
 
@@ -1000,7 +1002,7 @@ theorem lift_applies (S : Schema) (hts : TextStableP S) (ty0 : TypeId) (a0 : Att
     rw [← (same target (by omega)).1, hiaT, hspT, ← hprelen, take_mid, fsize_append]
     simp
   obtain ⟨fN, hL, hposL, hcL, hoS⟩ := hfinL.side hokL eN preT hpreT.symm hstT
-  obtain ⟨tN, hR, hposR, hcR⟩ := hfinR.side hokR eNt preT (by rw [← hsT, ← hsT1]; exact hstT) hwhole
+  obtain ⟨tN, hR, hposR, hcR, hoE⟩ := hfinR.side hokR eNt preT (by rw [← hsT, ← hsT1]; exact hstT) hwhole
   rw [← hsT] at hposR
   obtain ⟨_, hfle, _⟩ := hL.facts postT []
   obtain ⟨_, htle, _⟩ := hR.facts postT []
@@ -1030,7 +1032,7 @@ theorem lift_applies (S : Schema) (hts : TextStableP S) (ty0 : TypeId) (a0 : Att
     rw [Nat.add_sub_cancel_left]
     exact this
   -- the gap's content between the two nests
-  have hins := insertAt_lift S mid oS oE hcL hcR hoS
+  have hins := insertAt_lift S mid oS oE hcL hcR hoS hoE
   -- the replace
   have hvT' : S.validContent tyP (preT ++ (accL.toList ++ mid ++ accR.toList ++ postT)) = true := by
     simpa only [List.append_assoc] using hvT
